@@ -1151,6 +1151,15 @@ class Tr:
         vars_ = sorted(i for i in env if isinstance(i, int) and i in used and i not in self.skipped)
         # refs alias their sources: keep both (harmless)
         lname = f'{self.f.lean_name}.loop{head}'
+        # the same loop reached along another path of the (tree-unfolded) CFG: reuse its definition
+        if not hasattr(self, 'loop_defs'): self.loop_defs = {}
+        if head in self.loop_defs:
+            prev_vars = self.loop_defs[head]
+            missing = [i for i in prev_vars if i not in env]
+            if missing: raise Unsupported(f'loop bb{head} entered with different live variables')
+            self.needs_fuel = True
+            return [Tail(f'{lname} α fuel {" ".join(env[i] for i in prev_vars)}'.strip())]
+        self.loop_defs[head] = vars_
         params = []
         env2 = {k: v for k, v in env.items() if not isinstance(k, int)}
         for i in vars_:
